@@ -875,6 +875,13 @@ impl<'a> LoweringContext<'a> {
     }
 
     fn fixup_block_id_noop(&mut self, target: BlockId) {
+        // An inner construct may have left its own merge id pending (its last block
+        // ended in return/branch, so nothing was sealed under that id). Branches
+        // already name it: materialise it as a block falling through to `target`
+        // instead of overwriting it.
+        if self.pending_block_id.is_some_and(|p| p != target) {
+            self.seal_block(AirTerminator::Goto(target));
+        }
         self.pending_block_id = Some(target);
     }
 
